@@ -39,6 +39,7 @@ import (
 	"github.com/herumi/bls-eth-go-binary/bls"
 	"go.uber.org/zap"
 
+	"github.com/bloxapp/ssv/protocol/v2/blockchain/beacon"
 	"github.com/bloxapp/ssv/protocol/v2/qbft/controller"
 	"github.com/bloxapp/ssv/protocol/v2/qbft/instance"
 	"github.com/bloxapp/ssv/protocol/v2/qbft/roundtimer"
@@ -146,7 +147,8 @@ func ceilMs(v int64) int64 {
 // timer cases
 
 type tOp struct {
-	kind string // arm | cancel | end
+	kind string // arm | cancel | register | end
+	k    int64  // register: handler number, -1 = nil
 	h, r uint64
 	at   int64 // ns offset from the case start
 }
@@ -156,15 +158,26 @@ type tCase struct {
 	gen    int64 // abstract instant of slot 0
 	ops    []tOp
 	probe  string // "" = inside the property's quantifier (strictly increasing rounds, one height)
+	hdNil  bool   // the timer is built with a nil callback (as operator/validator does), else with handler 0
 	styles []string
 }
 
 func (tc *tCase) lines() []string {
-	ls := []string{fmt.Sprintf("reset timer role=%d slot=%d thr=%d quick=%d slow=%d gen=%d", tc.c.role, tc.c.slot, tc.c.thr, tc.c.quick, tc.c.slow, tc.gen)}
+	first := fmt.Sprintf("reset timer role=%d slot=%d thr=%d quick=%d slow=%d gen=%d", tc.c.role, tc.c.slot, tc.c.thr, tc.c.quick, tc.c.slow, tc.gen)
+	if tc.hdNil {
+		first += " hd=-"
+	}
+	ls := []string{first}
 	for _, o := range tc.ops {
 		switch o.kind {
 		case "arm":
 			ls = append(ls, fmt.Sprintf("arm h=%d r=%d at=%d", o.h, o.r, base+o.at))
+		case "register":
+			if o.k < 0 {
+				ls = append(ls, fmt.Sprintf("register k=- at=%d", base+o.at))
+			} else {
+				ls = append(ls, fmt.Sprintf("register k=%d at=%d", o.k, base+o.at))
+			}
 		default:
 			ls = append(ls, fmt.Sprintf("%s at=%d", o.kind, base+o.at))
 		}
@@ -173,8 +186,13 @@ func (tc *tCase) lines() []string {
 }
 
 type fire struct {
-	round uint64
-	ts    time.Time
+	round   uint64
+	handler int64 // which registered callback was invoked
+	ts      time.Time
+}
+type regRec struct {
+	k     int64 // -1 = nil
+	start time.Time
 }
 type armRec struct {
 	round  uint64
@@ -187,6 +205,7 @@ type tRun struct {
 	obs       []string // one per line of tc.lines()
 	fires     []fire
 	arms      []armRec
+	regs      []regRec // handler registrations: New(…, done) first, then every OnTimeout call
 	cancelAt  time.Time
 	slotZero  time.Time
 	disturbed bool
@@ -209,7 +228,7 @@ func fmtFires(fs []fire) string {
 	}
 	s := make([]string, len(fs))
 	for i, f := range fs {
-		s[i] = strconv.FormatUint(f.round, 10)
+		s[i] = strconv.FormatUint(f.round, 10) + "@" + strconv.FormatInt(f.handler, 10)
 	}
 	return "f=" + strings.Join(s, ",")
 }
@@ -223,12 +242,23 @@ func runTimerCase(tc *tCase) *tRun {
 	defer cancel()
 	var mu sync.Mutex
 	var fires []fire
-	tm := roundtimer.New(ctx, net, spectypes.BeaconRole(tc.c.role), func(r specqbft.Round) {
-		ts := time.Now()
-		mu.Lock()
-		fires = append(fires, fire{uint64(r), ts})
-		mu.Unlock()
-	})
+	mkcb := func(k int64) roundtimer.OnRoundTimeoutF {
+		if k < 0 {
+			return nil
+		}
+		return func(r specqbft.Round) {
+			ts := time.Now()
+			mu.Lock()
+			fires = append(fires, fire{uint64(r), k, ts})
+			mu.Unlock()
+		}
+	}
+	k0 := int64(0)
+	if tc.hdNil {
+		k0 = -1
+	}
+	res.regs = append(res.regs, regRec{k0, time.Now()})
+	tm := roundtimer.New(ctx, net, spectypes.BeaconRole(tc.c.role), mkcb(k0))
 	tm.VerifSetTimeoutOptions(specqbft.Round(tc.c.thr), time.Duration(tc.c.quick), time.Duration(tc.c.slow))
 
 	// canary: measures the scheduling latency this process experiences while the case runs
@@ -275,6 +305,9 @@ func runTimerCase(tc *tCase) *tRun {
 			d := tm.RoundTimeout(specqbft.Height(op.h), specqbft.Round(op.r))
 			res.arms = append(res.arms, armRec{round: op.r, h: op.h, start: st, lb: st.Add(d), cancel: cancelled})
 			tm.TimeoutForRound(specqbft.Height(op.h), specqbft.Round(op.r))
+		case "register":
+			res.regs = append(res.regs, regRec{op.k, time.Now()})
+			tm.OnTimeout(mkcb(op.k))
 		case "cancel":
 			res.cancelAt = time.Now()
 			cancel()
@@ -327,6 +360,20 @@ func oracle(run *hx.Run, tc *tCase, r *tRun) {
 		count[f.round]++
 		if count[f.round] == 2 {
 			run.Violate("C17/callback-twice-for-one-arming", fmt.Sprintf("round %d was armed once and its callback ran twice", f.round), tc.lines()...)
+		}
+		// the callback in force: the handler of the most recent registration (New or OnTimeout); a registration that
+		// began less than 10 ms before the callback is not counted against it
+		hStrict, hLoose := int64(-2), int64(-2)
+		for _, g := range r.regs {
+			if !g.start.After(f.ts) {
+				hLoose = g.k
+			}
+			if !g.start.After(f.ts.Add(-10 * time.Millisecond)) {
+				hStrict = g.k
+			}
+		}
+		if f.handler != hStrict && f.handler != hLoose {
+			run.Violate("C17/callback-to-replaced-handler", fmt.Sprintf("callback for round %d was delivered to handler %d while handler %d was the one registered last", f.round, f.handler, hLoose), tc.lines()...)
 		}
 		// the arming of this round
 		var a *armRec
@@ -443,6 +490,11 @@ func genTimerCase(r *hx.Rng, forceProbe string) *tCase {
 	}
 	var prevFire int64
 	var prevRounds []uint64
+	// handler registration: built with nil as operator/validator does (the handler arrives shortly after the first
+	// arming, like registerTimeoutHandler), and/or re-registered later (a new height's handler replaces the old one)
+	tc.hdNil = r.Chance(20)
+	reRegister := tc.hdNil || r.Chance(35)
+	nextHandler := int64(1)
 	for i := 0; i < nArms; i++ {
 		style := "first"
 		if i > 0 {
@@ -497,6 +549,17 @@ func genTimerCase(r *hx.Rng, forceProbe string) *tCase {
 		fireTimes = append(fireTimes, f)
 		prevFire = f
 		prevRounds = append(prevRounds, round)
+		if reRegister && ((tc.hdNil && i == 0 && r.Chance(85)) || r.Chance(30)) {
+			t = place(t + ms*int64(3+r.Intn(80)))
+			k := nextHandler
+			nextHandler++
+			st := "register"
+			if r.Chance(8) {
+				k, st = -1, "register-nil"
+			}
+			tc.ops = append(tc.ops, tOp{kind: "register", k: k, at: t})
+			tc.styles = append(tc.styles, st)
+		}
 		if i == cancelAfter {
 			t = place(t + ms*int64(5+r.Intn(200)))
 			tc.ops = append(tc.ops, tOp{kind: "cancel", at: t})
@@ -536,6 +599,13 @@ func caseFromLines(ls []string) *tCase {
 		case i == 0:
 			tc.c = cfg{role: kv["role"], slot: kv["slot"], thr: uint64(kv["thr"]), quick: kv["quick"], slow: kv["slow"]}
 			tc.gen = kv["gen"]
+			tc.hdNil = strings.Contains(l, " hd=-")
+		case fs[0] == "register":
+			k, ok := kv["k"]
+			if !ok {
+				k = -1
+			}
+			tc.ops = append(tc.ops, tOp{kind: "register", k: k, at: kv["at"] - base})
 		case fs[0] == "arm":
 			tc.ops = append(tc.ops, tOp{kind: "arm", h: uint64(kv["h"]), r: uint64(kv["r"]), at: kv["at"] - base})
 		default:
@@ -731,6 +801,111 @@ func doDur(run *hx.Run, c cfg, round uint64) {
 	}
 	run.Tag("dur/" + rc + "/" + tier)
 	run.Seen("dur|" + rc + "|" + tier)
+}
+
+// ---------------------------------------------------------------------------------------------
+// real beacon.Network stratum: the RoundTimer is built the way the operator builds it
+// (operator/validator: options.BeaconNetwork.GetNetwork() → validator.Options.BeaconNetwork → roundtimer.New),
+// from a configured beacon.Network (incl. local test networks, whose genesis differs from the spec network's).
+// Observation: the absolute deadline the real RoundTimeout aims at (slot-timed roles) or its relative result.
+// Oracle: that deadline is never before slot start + role base + cumulative allowance, the slot start being
+// computed here from MinGenesisTime / SlotDurationSec of the SAME configured object, not through GetNetwork.
+
+var specNets = []spectypes.BeaconNetwork{spectypes.MainNetwork, spectypes.HoleskyNetwork, spectypes.PraterNetwork, spectypes.BeaconTestNetwork}
+
+func configuredNet(name string, local bool) (beacon.Network, bool) {
+	for _, n := range specNets {
+		if string(n) == name {
+			if local {
+				return beacon.NewLocalTestNetwork(n), true
+			}
+			return beacon.NewNetwork(n), true
+		}
+	}
+	return beacon.Network{}, false
+}
+
+func doNetDl(run *hx.Run, name string, local bool, c cfg, scaled bool, h, round uint64) {
+	cn, ok := configuredNet(name, local)
+	if !ok {
+		panic("unknown network " + name)
+	}
+	var handed beacon.BeaconNetwork = cn.GetNetwork() // what NewController hands to validator.Options
+	tm := roundtimer.New(context.Background(), handed, spectypes.BeaconRole(c.role), nil)
+	if scaled {
+		tm.VerifSetTimeoutOptions(specqbft.Round(c.thr), time.Duration(c.quick), time.Duration(c.slow))
+	}
+	thr, q, sl := tm.VerifTimeoutOptions()
+	c.thr, c.quick, c.slow = uint64(thr), int64(q), int64(sl)
+	// independent of GetNetwork: the configured object's own genesis and slot duration
+	c.slot = int64(cn.SlotDurationSec())
+	genesis := int64(cn.MinGenesisTime()) * int64(time.Second)
+	slotStart := genesis + int64(h)*int64(uint64(cn.SlotDurationSec().Seconds()))*int64(time.Second)
+	line := fmt.Sprintf("netdl net=%s local=%s role=%d slot=%d thr=%d quick=%d slow=%d gen=%d h=%d r=%d scaled=%s",
+		name, b01(local), c.role, c.slot, c.thr, c.quick, c.slow, genesis, h, round, b01(scaled))
+	spec, slotTimed := roleDeadlineSpec(c, round)
+	call := func() (int64, int64, int64) {
+		before := time.Now().UnixNano()
+		d := int64(tm.RoundTimeout(specqbft.Height(h), specqbft.Round(round)))
+		return before, d, time.Now().UnixNano()
+	}
+	b1, d1, a1 := call()
+	time.Sleep(2 * time.Millisecond)
+	_, d2, _ := call()
+	obs := ""
+	if d1 == d2 { // the clock did not enter the result: relative to the arming time (default: branch)
+		obs = "rel " + strconv.FormatInt(d1, 10)
+	} else {
+		best := b1 + d1
+		check := func(after, d int64) {
+			if slotTimed && after+d < slotStart+spec {
+				run.Violate("C17/deadline-before-slot-start-formula", fmt.Sprintf("network %s (local=%v): RoundTimeout(h=%d, r=%d) aims at an instant %d ns before slot start + role base + cumulative allowance",
+					name, local, h, round, slotStart+spec-(after+d)), line)
+			}
+		}
+		check(a1, d1)
+		for try := 0; try < 12 && ceilMs(best)-best >= ms/2; try++ {
+			b, d, a := call()
+			check(a, d)
+			if b+d > best {
+				best = b + d
+			}
+		}
+		obs = "abs " + strconv.FormatInt(ceilMs(best), 10)
+	}
+	run.Emit(line, obs)
+	lc := "spec-genesis"
+	if local {
+		lc = "local-genesis"
+	}
+	rc := "default-branch"
+	if slotTimed {
+		rc = "slot-timed"
+	}
+	run.Tag("netdl/" + lc + "/" + rc)
+	run.Seen("netdl|" + name + "|" + lc + "|" + rc)
+}
+
+func genNetDl(run *hx.Run, r *hx.Rng) {
+	name := string(specNets[r.Intn(len(specNets))])
+	local := r.Chance(50)
+	cn, _ := configuredNet(name, local)
+	var c cfg
+	c.role = int64(r.Pick(0, 1, 2, 3, 4, 0, 1, 3, 4, 5))
+	scaled := r.Chance(30)
+	if scaled {
+		c.thr, c.quick, c.slow = uint64(1+r.Intn(10)), ms*int64(1+r.Intn(5000)), ms*int64(1+r.Intn(300000))
+	}
+	h := uint64(cn.EstimatedCurrentSlot())
+	switch r.Intn(4) {
+	case 0:
+		h = uint64(r.Intn(1 << 24))
+	case 1:
+		h += uint64(r.Intn(64))
+	default:
+		h += uint64(r.Intn(3))
+	}
+	doNetDl(run, name, local, c, scaled, h, uint64(r.Pick(1, 1, 2, 3, 8, 9, 12, r.Intn(30))))
 }
 
 // ---------------------------------------------------------------------------------------------
@@ -975,7 +1150,7 @@ func replay(run *hx.Run, lines []string, stats map[string]int) {
 		switch {
 		case fs[0] == "reset" && len(fs) > 1 && fs[1] == "timer":
 			j := i + 1
-			for j < len(lines) && !strings.HasPrefix(lines[j], "reset") && !strings.HasPrefix(lines[j], "dur") {
+			for j < len(lines) && !strings.HasPrefix(lines[j], "reset") && !strings.HasPrefix(lines[j], "dur") && !strings.HasPrefix(lines[j], "netdl") {
 				j++
 			}
 			tc := caseFromLines(lines[i:j])
@@ -983,6 +1158,15 @@ func replay(run *hx.Run, lines []string, stats map[string]int) {
 			i = j - 1
 		case fs[0] == "reset" && len(fs) > 1 && fs[1] == "ctl":
 			e = startCtl(run, int(parseKV(fs)["cap"]))
+		case fs[0] == "netdl":
+			kv := parseKV(fs)
+			name := ""
+			for _, f := range fs {
+				if strings.HasPrefix(f, "net=") {
+					name = f[4:]
+				}
+			}
+			doNetDl(run, name, kv["local"] == 1, cfg{role: kv["role"], thr: uint64(kv["thr"]), quick: kv["quick"], slow: kv["slow"]}, kv["scaled"] == 1, uint64(kv["h"]), uint64(kv["r"]))
 		case fs[0] == "dur":
 			kv := parseKV(fs)
 			doDur(run, cfg{role: kv["role"], slot: kv["slot"], thr: uint64(kv["thr"]), quick: kv["quick"], slow: kv["slow"]}, uint64(kv["r"]))
@@ -1046,6 +1230,11 @@ func main() {
 	for i := 0; i < 6*run.N; i++ {
 		c, round := genDur(r)
 		doDur(run, c, round)
+	}
+
+	// 2b. the real beacon.Network behind the timer
+	for i := 0; i < 3*run.N; i++ {
+		genNetDl(run, r)
 	}
 
 	// 3. controller half
